@@ -1,6 +1,7 @@
 use crate::engine::Ctx;
 use crate::report::Tier;
 
+pub mod c07;
 pub mod c11;
 pub mod c14;
 pub mod c15;
@@ -10,6 +11,7 @@ pub type BoxedScenario = Box<dyn Fn(&mut Ctx) + Sync>;
 
 pub fn run(prop: &str, tier: Tier, seed: u64) -> Option<i32> {
     Some(match prop {
+        "C07" => c07::run(tier, seed),
         "C11" => c11::run(tier, seed),
         "C14" => c14::run(tier, seed),
         "C15" => c15::run(tier, seed),
@@ -20,6 +22,7 @@ pub fn run(prop: &str, tier: Tier, seed: u64) -> Option<i32> {
 
 pub fn scenario(prop: &str, name: &str, tier: Tier) -> Option<BoxedScenario> {
     match prop {
+        "C07" => c07::scenario(name, tier),
         "C11" => c11::scenario(name, tier),
         "C14" => c14::scenario(name, tier),
         "C15" => c15::scenario(name, tier),
